@@ -1,6 +1,7 @@
 package sim
 
 import (
+	"sort"
 	"strconv"
 	"strings"
 	"time"
@@ -138,7 +139,12 @@ func opMutations(op *Op) []func(*Op) {
 		}
 	}
 	if len(op.Upd) > 1 {
+		ks := make([]string, 0, len(op.Upd))
 		for k := range op.Upd {
+			ks = append(ks, k)
+		}
+		sort.Strings(ks)
+		for _, k := range ks {
 			k := k
 			ms = append(ms, func(o *Op) { delete(o.Upd, k) })
 		}
